@@ -83,6 +83,14 @@ inline bool operator<(const Big &a, const Big &b) { return a.v < b.v; }
 inline auto operator<=>(const Big &a, const Big &b) { return a.v <=> b.v; }
 #endif
 
+// value of an element / write access to it (type 7 is a raw 1-byte integer, not a class)
+template <class X>
+inline int getv(const X &x) { return x.v; }
+inline int getv(signed char x) { return x; }
+template <class X>
+inline void setv(X &x, int v) { x.v = v; }
+inline void setv(signed char &x, int v) { x = static_cast<signed char>(v); }
+
 #ifndef C16_TYPE
 #define C16_TYPE 2
 #endif
@@ -116,11 +124,17 @@ typedef amc::SmallVector<E, 3> T;
 static const char *kFlav = "small";
 static const long kN = 3;
 static const char *kElem = "TC";
-#else
+#elif C16_TYPE == 6
 typedef Big E;
 typedef amc::SmallVector<E, 2> T;
 static const char *kFlav = "small";
 static const long kN = 2;
+static const char *kElem = "TC";
+#else
+typedef signed char E;  // a raw 1-byte integral element (the values of its walks include negative ones)
+typedef amc::vector<E> T;
+static const char *kFlav = "vector";
+static const long kN = 0;
 static const char *kElem = "TC";
 #endif
 typedef T::size_type SZ;
@@ -266,19 +280,19 @@ static void exec(const Label &lb, Result &r) {
     else
       v = {src[0], src[1]};
   } else if (op == "setIndex") {
-    v[static_cast<SZ>(lb.n)].v = lb.v;
+    setv(v[static_cast<SZ>(lb.n)], lb.v);
   } else if (op == "setAt") {
-    v.at(static_cast<SZ>(lb.n)).v = lb.v;
+    setv(v.at(static_cast<SZ>(lb.n)), lb.v);
   } else if (op == "setFront") {
-    v.front().v = lb.v;
+    setv(v.front(), lb.v);
   } else if (op == "setBack") {
-    v.back().v = lb.v;
+    setv(v.back(), lb.v);
   } else if (op == "setData") {
-    v.data()[lb.n].v = lb.v;
+    setv(v.data()[lb.n], lb.v);
   } else if (op == "setIter") {
-    (v.begin() + lb.n)->v = lb.v;
+    setv(*(v.begin() + lb.n), lb.v);
   } else if (op == "setRIter") {
-    (v.rbegin() + (static_cast<long>(v.size()) - 1 - lb.n))->v = lb.v;
+    setv(*(v.rbegin() + (static_cast<long>(v.size()) - 1 - lb.n)), lb.v);
   } else if (op == "maxSize") {
     unsigned long long mx = static_cast<unsigned long long>(cv.max_size());
     r.val(mx > 2000000000ULL ? 2000000000L : static_cast<long>(mx));
@@ -301,11 +315,11 @@ static void exec(const Label &lb, Result &r) {
     T::iterator it = lb.src > 0 ? v.emplace(v.begin() + lb.pos, *arg) : v.emplace(v.begin() + lb.pos, lb.v);
     r.idx(it - v.begin());
   } else if (op == "emplaceF" && lb.src > 0) {
-    T::iterator it = v.emplace(v.begin() + lb.pos, arg->v);
+    T::iterator it = v.emplace(v.begin() + lb.pos, getv(*arg));
     r.idx(it - v.begin());
   } else if (op == "emplaceBackF" && lb.src > 0) {
-    v.emplace_back(arg->v);
-    r.val(v.back().v);
+    v.emplace_back(getv(*arg));
+    r.val(getv(v.back()));
   } else if (op == "insertN") {
     T::iterator it = v.insert(v.begin() + lb.pos, static_cast<SZ>(lb.n), *arg);
     r.idx(it - v.begin());
@@ -326,7 +340,7 @@ static void exec(const Label &lb, Result &r) {
       v.emplace_back(*arg);
     else
       v.emplace_back(lb.v);
-    r.val(v.back().v);
+    r.val(getv(v.back()));
   } else if (op == "pushBack") {
     v.push_back(*arg);
   } else if (op == "pushBackRv") {
@@ -352,17 +366,17 @@ static void exec(const Label &lb, Result &r) {
   } else if (op == "swap") {
     v.swap(*g_slot[d]);
   } else if (op == "at") {
-    r.val(cv.at(static_cast<SZ>(lb.n)).v);
+    r.val(getv(cv.at(static_cast<SZ>(lb.n))));
   } else if (op == "index") {
-    r.val(cv[static_cast<SZ>(lb.n)].v);
+    r.val(getv(cv[static_cast<SZ>(lb.n)]));
   } else if (op == "front") {
-    r.val(cv.front().v);
+    r.val(getv(cv.front()));
   } else if (op == "back") {
-    r.val(cv.back().v);
+    r.val(getv(cv.back()));
   } else if (op == "iterate") {
     long fw = 0, bw = 0, m = 1;
-    for (T::const_iterator it = cv.begin(); it != cv.end(); ++it) fw = fw * 31 + it->v + 1;
-    for (T::const_reverse_iterator it = cv.rbegin(); it != cv.rend(); ++it) bw += (it->v + 1) * m, m *= 31;
+    for (T::const_iterator it = cv.begin(); it != cv.end(); ++it) fw = fw * 31 + getv(*it) + 1;
+    for (T::const_reverse_iterator it = cv.rbegin(); it != cv.rend(); ++it) bw += (getv(*it) + 1) * m, m *= 31;
     r.val(fw == bw ? static_cast<long>(cv.end() - cv.begin()) : -1);
   } else if (op == "eq") {
     r.boolean(cv == *g_slot[d]);
@@ -379,7 +393,7 @@ static void exec(const Label &lb, Result &r) {
 #ifdef AMC_NONSTD_FEATURES
   } else if (op == "popBackVal") {
     E x = v.pop_back_val();
-    r.val(x.v);
+    r.val(getv(x));
   } else if (op == "appendN") {
     v.append(static_cast<SZ>(lb.n));
   } else if (op == "appendNVal") {
@@ -423,7 +437,7 @@ static void observe(int c, std::string &out) {
   std::string vals, zeros;
   size_t n = static_cast<size_t>(v.size());
   for (size_t i = 0; i < n; ++i) {
-    vals += (i ? "," : "") + num(d[i].v);
+    vals += (i ? "," : "") + num(getv(d[i]));
     zeros += i ? ",0" : "0";
   }
   unsigned long long mx = static_cast<unsigned long long>(v.max_size());
